@@ -250,7 +250,7 @@ def case_from_ident(ident):
 
 def std_shards(tier, quick_bound=12, thorough_bound=16, extra_thorough_shapes=(),
                with_f=True, with_p=False, max_side=None, f_quick=(5, 1), chunk=2048, with_g=True,
-               with_big=False):
+               with_big=False, with_hist=False):
     """Standard strata: S(12)/S(16) ∪ F (∪ P)."""
     if tier == 'quick':
         sh = space.s_shards(quick_bound, chunk=chunk, max_side=max_side)
@@ -283,6 +283,8 @@ def std_shards(tier, quick_bound=12, thorough_bound=16, extra_thorough_shapes=()
         sh += space.big_shards(tier)
     if with_g:
         sh += space.g_shards(tier)
+    if with_hist:
+        sh = hist_shards(tier) + sh
     return sh
 
 
@@ -326,6 +328,8 @@ def track(case, vs, tier):
 def run_shard_generic(shard, tier, prop, check_case, both_labelings=True,
                       max_violations=5, sample_every=997, variants=(), wide_variants=None):
     """Explore every table of a shard with ``check_case(case, ctr)``."""
+    if shard[0] == 'H':
+        return run_hist_shard(shard, tier, prop)
     ctr = collections.Counter()
     viols = []
     samples = []
@@ -387,6 +391,66 @@ def run_shard_generic(shard, tier, prop, check_case, both_labelings=True,
             'outcomes': [list(o) for o in outcomes]}
 
 
+def extra_labeling_pass(shard, tier, prop, check_case, labelings, res, max_cells=9):
+    """Every table of a small S shard once more under further labelings (merged into res)."""
+    if shard[0] != 'S' or shard[1] * shard[2] > max_cells:
+        return res
+    ctr = collections.Counter()
+    for n, m, rows, tag in space.tables_of_shard(shard):
+        for labeling in labelings:
+            case = Case(rows, tag, labeling)
+            try:
+                vs = check_case(case, ctr)
+            except RefError as e:
+                raise common.HarnessError(f'{prop}: {e} on {tag}')
+            except common.HarnessError:
+                raise
+            except ForeignLabel as e:
+                vs = [common.violation(prop, 'foreign-label', case.ident(),
+                                       'labels of the right axis', str(e))]
+            except Exception as e:
+                vs = [common.library_exception(prop, case.ident(), e)]
+            track(case, vs, tier)
+            ctr['evaluations'] += 1
+            ctr['hit_labeling_' + labeling] += 1
+            res['violations'].extend(vs[:2])
+    for k_, v_ in ctr.items():
+        res['counters'][k_] = res['counters'].get(k_, 0) + v_
+    return res
+
+
+def hist_shards(tier):
+    """Call-history exploration (mc/hist2.py): every table with both sides >= 2 and
+    <= 9 cells, in small shards (the work per table grows with the 4th power of the
+    number of concepts)."""
+    from . import hist2
+    return [('H',) + s[1:] for s in space.s_shards(hist2.MAX_CELLS, chunk=8)
+            if s[1] >= 2 and s[2] >= 2]
+
+
+def run_hist_shard(shard, tier, prop):
+    from . import hist2
+    ctr = collections.Counter()
+    viols = []
+    if not WORKER_SHARDS or WORKER_SHARDS[-1] != shard:
+        WORKER_SHARDS.append(shard)
+    for n, m, rows, tag in space.tables_of_shard(('S',) + tuple(shard[1:])):
+        case = Case(rows, tag, space.ASC)
+        try:
+            vs = hist2.check(case, prop, ctr, tier=tier)
+        except RefError as e:
+            raise common.HarnessError(f'{prop}: {e} on {tag}')
+        except common.HarnessError:
+            raise
+        except Exception as e:
+            vs = [common.library_exception(prop, case.ident(), e)]
+        track(case, vs, tier)
+        viols.extend(vs[:1])
+        if len(viols) >= 3:
+            break
+    return {'counters': dict(ctr), 'violations': viols, 'samples': [], 'outcomes': []}
+
+
 def main_e1(mod, tier):
     t0 = time.time()
     res = common.Result(mod.ID)
@@ -411,7 +475,10 @@ def replay_worker(mod, v):
     key = (v['case'].get('tag'), v['case'].get('labeling'), v['case'].get('variant'))
     found = []
     for shard in w['shards']:
-        res = mod.run_shard(_tup(shard), w['tier'])
+        try:
+            res = mod.run_shard(_tup(shard), w['tier'])
+        finally:
+            common.clear_bitsets_registry()       # as the pool worker does after every shard
         found = [x for x in res.get('violations', ())
                  if (x['case'].get('tag'), x['case'].get('labeling'), x['case'].get('variant')) == key]
     return found
@@ -432,6 +499,9 @@ def replay_e1(mod, v):
         ALIVE.append(pcase)
     case = case_from_ident(v['case'])
     try:
+        if 'history' in v['case']:
+            from . import hist2
+            return hist2.check(case, mod.ID, ctr, tier=v['case'].get('worker', {}).get('tier', 'quick'))
         vs = mod.check_case(case, ctr)
         if case.variant == 'used' and not vs:
             vs = mod.check_case(case, ctr)
